@@ -39,10 +39,17 @@ func vCheckPure(text string, allowed []string) {
 	low, padded := strings.ToLower(text), text+"\t"
 	lowOK0, padOK0 := vValid(low), vValid(padded)
 	lowX0, lowE0 := ExtractLicenses(low)
+	lowAllowed := make([]string, len(allowed))
+	for i := range allowed {
+		lowAllowed[i] = strings.ToLower(allowed[i])
+	}
+	lowR0, lowSE0 := Satisfies(text, lowAllowed)
 	r1, e1, l1, x1, ok1, inv1 := vWorkload(text, allowed)
 	lowX1, lowE1 := ExtractLicenses(low)
 	vAssert(vAnd(vIff(lowOK0, vValid(low)), vIff(padOK0, vValid(padded))), "same-result-after-related-calls")
 	vAssert((lowE0 == nil) == (lowE1 == nil) && vSameList(lowX0, lowX1), "same-result-after-related-calls")
+	lowR1, lowSE1 := Satisfies(text, lowAllowed)
+	vAssert(vAnd((lowSE0 == nil) == (lowSE1 == nil), vIff(lowR0, lowR1)), "same-result-after-related-calls")
 	vAssert(vSameList(allowed, before), "args-unchanged")
 	// again, in another order, after other calls
 	ok2, inv2 := ValidateLicenses(allowed)
